@@ -149,7 +149,7 @@ class SigWorld(HistoryWorld):
             ctx.probe('big-weights-near-two-thirds')
         for i in signers:
             if i in byz:
-                kind = rng.choice(['other-block', 'corrupt', 'corrupt-id'])
+                kind = rng.choice(['other-block', 'corrupt', 'corrupt-id', 'wrong-length', 'smuggled-prefix'])
                 ctx.fault('byzantine-' + kind)
             else:
                 kind = 'valid'
@@ -193,6 +193,14 @@ class SigWorld(HistoryWorld):
         pub = bytes(key.verify_key)
         sig = key.sign(SIGN_MAGIC + blk.root_hash + blk.file_hash).signature
         node_id = hashlib.sha256(NODE_MAGIC + pub).digest()
+        if kind == 'wrong-length':
+            # an Ed25519 signature is exactly 64 bytes: truncated, empty or extended fields are not signatures
+            sig = [sig[:63], sig[:32], b'', sig + b'\x00', sig + sig, sig + SIGN_MAGIC + blk.root_hash + blk.file_hash][op['bit'] % 6]
+        if kind == 'smuggled-prefix':
+            # the signer signs X || id and ships signature || X: a verifier that glues the field in front of the message
+            # sees a valid signed blob, but nobody signed the block identifier itself
+            x = bytes((op['bit'] * 7 + j) % 256 for j in range(1 + op['bit'] % 40))
+            sig = key.sign(x + SIGN_MAGIC + blk.root_hash + blk.file_hash).signature + x
         if kind == 'corrupt':
             b = bytearray(sig)
             b[(op['bit'] // 8) % 64] ^= 0x80 >> (op['bit'] % 8)
@@ -223,7 +231,8 @@ class SigWorld(HistoryWorld):
             return 'must-raise', 'empty-validator-set'
         bad = [s for s in sigs if s['_kind'] != 'valid']
         if bad:
-            return 'must-raise', {'other-block': 'invalid-signature', 'corrupt': 'invalid-signature', 'corrupt-id': 'unknown-signer', 'foreign': 'unknown-signer'}[bad[0]['_kind']]
+            return 'must-raise', {'other-block': 'invalid-signature', 'corrupt': 'invalid-signature', 'corrupt-id': 'unknown-signer', 'foreign': 'unknown-signer',
+                                  'wrong-length': 'signature-field-not-64-bytes', 'smuggled-prefix': 'signature-over-other-message-with-prefix-in-field'}[bad[0]['_kind']]
         signers = [s['_v'] for s in sigs]
         distinct = set(signers)
         w = sum(st.weights[i] for i in distinct)
